@@ -89,6 +89,19 @@ func streamFaults(cfg *Config, res *Result) error {
 	g := HistGen{Layering: "disjoint", NSteps: 4, Rollbacks: 1}
 	for i := 0; i < nCases; i++ {
 		c := genHistCase(r, g, umask)
+		if cfg.Prop == "C08" && r.Chance(1, 2) {
+			// every operation is retried once: a failed backup must not leave anything behind that
+			// lets the retry through without a copy ("the failure does not corrupt the transaction")
+			var steps []Step
+			for _, st := range c.Steps {
+				steps = append(steps, st)
+				if st.Op != nil {
+					op := *st.Op
+					steps = append(steps, Step{Op: &op})
+				}
+			}
+			c.Steps = steps
+		}
 		// no second rollback, no read composites
 		pts, err := collectFaultPoints(c, cfg.Prop)
 		if err != nil {
